@@ -19,7 +19,7 @@ import ast
 import re
 
 from ..cfg import ENTRY, EXIT, header_parts
-from ..flow import Defs, all_defs_text, guard_facts, iterations, rejections
+from ..flow import Defs, all_defs_text, conjuncts, guard_facts, iterations, rejections
 from ..loader import AnalysisError, FuncInfo, dotted, norm, walk_no_nested
 from ..report import Ctx
 from ..selftest import Mutant
@@ -133,6 +133,94 @@ def rule_precedence(ctx: Ctx) -> None:
     inverted = len(known) == len(classes) and sorted(classes, key=lambda c: -RANK[c]) != classes
     ctx.tri("1-precedence", call, call.node, good, inverted, "defaults | kwargs | bound: bound wins, then supplied, then defaults",
             f"merge order is {classes} (right-most wins): the precedence differs from the pipeline's bound > supplied > default", f"merge operands {classes}", key="call-merge")
+
+
+def _exclusion_classes(fn: FuncInfo) -> set[str] | None:
+    """Classes (BOUND / UPSTREAM / ...) of the containers a default's name must NOT be in to count, in `fn`."""
+    out: set[str] = set()
+    found = False
+    for it in iterations(fn.node):
+        if ".defaults" not in norm(it["iter"]):
+            continue
+        found = True
+        conds = list(it["filters"])
+        if it["kind"] == "loop":
+            for st in it["node"].body:
+                if isinstance(st, ast.If) and st.body and isinstance(st.body[-1], ast.Continue):
+                    conds += conjuncts(Defs(fn).resolve(st.test), False)  # facts that hold for the rest of the loop body
+        else:
+            conds = [f_ for g in it["node"].generators for i in g.ifs for f_ in conjuncts(i, True)]
+        for t, pol in conds:
+            m = re.fullmatch(r"\w+ in (.+)", t)
+            if m and not pol:
+                c = _classify(m.group(1)) or ("UPSTREAM" if m.group(1).endswith("output_to_func") else None)
+                if c:
+                    out.add(c)
+    return out if found else None
+
+
+def rule_defaults_siblings(ctx: Ctx) -> None:
+    """Pipeline.defaults and validate_consistent_defaults agree on which defaults count (not bound, not produced)."""
+    P = ctx.prog
+    a = P.func(f"{BASE}.Pipeline.defaults")
+    b = P.func("pipefunc._pipeline._validation.validate_consistent_defaults")
+    ea, eb = _exclusion_classes(a), _exclusion_classes(b)
+    if ea is None or eb is None:
+        ctx.add("1-precedence", a, a.node, None, "UNDECIDED: iteration over the functions' defaults not recognised", key="defaults-siblings")
+        return
+    ctx.tri("1-precedence", a, a.node, ea == eb and "BOUND" in ea, bool(ea) and bool(eb) and ea != eb, f"pipeline-level defaults exclude {sorted(ea)} in both Pipeline.defaults and validate_consistent_defaults",
+            f"Pipeline.defaults excludes {sorted(ea)} but validate_consistent_defaults excludes {sorted(eb)}: a default that the validator ignores (a bound or produced name) is offered as the value of a same-named root argument, or the reverse",
+            f"exclusions not recognised ({sorted(ea)} / {sorted(eb)})", key="defaults-siblings")
+
+
+def rule_graph_edges(ctx: Ctx) -> None:
+    """A dependency edge producer -> consumer exists only for parameters that are not bound (bound wins over upstream)."""
+    P = ctx.prog
+    g = P.func(f"{BASE}.Pipeline.graph")
+    cfg = ctx.cfg(g)
+    d = Defs(g)
+    loops = [it for it in iterations(g.node) if it["kind"] == "loop" and norm(it["iter"]).endswith(".parameters")]
+    if not loops:
+        ctx.add("1-precedence", g, g.node, None, "UNDECIDED: loop over the parameters not found in Pipeline.graph", key="graph-edges")
+        return
+    p_ = norm(loops[0]["target"])
+    n = 0
+    for node in cfg.nodes():
+        st = cfg.stmt[node]
+        if isinstance(st, (ast.If, ast.For, ast.While)) or not any(x is st for x in ast.walk(loops[0]["node"])):
+            continue
+        reads = [x for part in header_parts(st) for x in ast.walk(part) if isinstance(x, ast.Subscript) and norm(x.value).endswith("output_to_func") and norm(x.slice) == p_]
+        if not reads:
+            continue
+        n += 1
+        facts = guard_facts(cfg, d, node)
+        unbound = any(re.fullmatch(rf"{re.escape(p_)} in \S*_bound", t) and not pol for t, pol in facts)
+        ctx.add("1-precedence", g, st, unbound, "the producer of a parameter becomes a dependency only when the parameter is not bound" if unbound else
+                f"`{norm(st)[:60]}` links the producer of `{p_}` to the consumer without excluding bound parameters: root_args / arg_combinations then list inputs that execution ignores (the bound value wins)", key="graph-edges")
+    ctx.floor("1-precedence.graph-edges", n, 1)
+
+
+def rule_recursion_state(ctx: Ctx) -> None:
+    """A recursive enumeration must not mutate a list/set parameter in place and hand the same object to the recursive
+    call: sibling branches would see each other's entries (arg_combinations then lists combinations that miss arguments)."""
+    from .c10 import _param_mutations
+
+    P = ctx.prog
+    n = 0
+    for fn in P.functions_in(BASE):
+        rec = [c for c in ast.walk(fn.node) if isinstance(c, ast.Call) and dotted(c.func).rsplit(".", 1)[-1] == fn.name and fn.cls is None]
+        if not rec:
+            continue
+        n += 1
+        ps = fn.param_names()
+        out_params = {p_ for p_ in ps if "set" in p_ or "result" in p_ or "out" in p_}  # accumulators that are meant to be shared
+        muts = {p_: node for p_, node in _param_mutations(fn).items() if p_ not in out_params} | {
+            x.func.value.id: x for x in ast.walk(fn.node) if isinstance(x, ast.Call) and isinstance(x.func, ast.Attribute) and x.func.attr in ("append", "extend", "add", "insert") and isinstance(x.func.value, ast.Name)
+            and x.func.value.id in ps and x.func.value.id not in out_params}
+        shared = [(p_, c) for p_ in muts for c in rec for i, a in enumerate(c.args) if isinstance(a, ast.Name) and a.id == p_ and i < len(ps) and ps[i] == p_]
+        ctx.add("5-order-free", fn, muts[shared[0][0]] if shared else fn.node, not shared, f"{fn.name}: per-branch state is passed down as a fresh copy" if not shared else
+                f"`{norm(muts[shared[0][0]])[:50]}` mutates the parameter `{shared[0][0]}` and the same object is handed to the recursive call: sibling branches of the recursion see each other's entries", key=f"recursion-state {fn.name}")
+    ctx.floor("5-order-free.recursion", n, 1)
 
 
 def _has_call(st: ast.AST, name: str) -> bool:
@@ -250,13 +338,21 @@ def rule_entry(ctx: Ctx) -> None:
         t = norm(d.resolve(passed)) if passed is not None else "?"
         ctx.tri("7-entry", f, runs[0], t == kwp, passed is not None and t != kwp and isinstance(d.resolve(passed), (ast.DictComp, ast.Dict, ast.Call)), f"{what} forwards all keyword arguments to run()",
                 f"{what} forwards `{t[:60]}` instead of the keyword arguments it received: arguments are dropped or altered before evaluation", f"forwards `{t[:40]}`", key=f"entry {f.qualname.rsplit('.', 2)[-2]}.{f.name}")
+    pfun = P.func(f"{BASE}.Pipeline.func")
+    d = Defs(pfun)
+    req = [p_ for p_ in pfun.param_names() if p_ != "self"][0]
+    keys = [d.resolve(x.slice) for x in ast.walk(pfun.node) if isinstance(x, ast.Subscript) and "_internal_cache" in norm(x.value)] + \
+           [d.resolve(c.args[0]) for c in ast.walk(pfun.node) if isinstance(c, ast.Call) and isinstance(c.func, ast.Attribute) and c.func.attr in ("get", "setdefault") and "_internal_cache" in norm(c.func.value) and c.args]
+    other = [k for k in keys if norm(k) != req]
+    ctx.tri("7-entry", pfun, pfun.node, bool(keys) and not other, bool(other), "Pipeline.func memoises the composed function under the requested output name",
+            f"Pipeline.func memoises under `{norm(other[0])[:50] if other else ''}`, not under the requested output name: asking for another name of the same function returns the wrapper of the first one", "memoisation of Pipeline.func not found", key="func-memo-key")
     fo = P.func(f"{BASE}._PipelineAsFunc.call_full_output")
     full = [k for c in ast.walk(fo.node) if isinstance(c, ast.Call) and norm(c.func).endswith(".run") for k in c.keywords if k.arg == "full_output"]
     ctx.tri("7-entry", fo, fo.node, bool(full) and isinstance(full[0].value, ast.Constant) and full[0].value.value is True, not full, "call_full_output = run(..., full_output=True)", "call_full_output does not ask run() for the full output", key="full-output")
 
 
 def check(ctx: Ctx) -> None:
-    for rule in (rule_precedence, rule_once, rule_routing, rule_surplus, rule_order_free, _invalidate, rule_entry):
+    for rule in (rule_precedence, rule_defaults_siblings, rule_graph_edges, rule_recursion_state, rule_once, rule_routing, rule_surplus, rule_order_free, _invalidate, rule_entry):
         ctx.run(rule)
 
 
